@@ -77,13 +77,13 @@ const HUGE: [usize; 3] = [usize::MAX, usize::MAX / 2 + 1, 1 << 32];
 
 pub fn draw_cfg(rng: &mut Rng, profile: Profile, thorough: bool) -> ArrayCfg {
     let flavour = match profile {
-        Profile::C05 => *[Flavour::Tok, Flavour::Tok, Flavour::Tok, Flavour::ZTok].get(rng.below(4)).unwrap(),
-        Profile::C11 | Profile::C12 => *[Flavour::Tok, Flavour::Tok, Flavour::Tok, Flavour::Tok, Flavour::ZTok, Flavour::Cid].get(rng.below(6)).unwrap(),
-        _ => *[Flavour::Tok, Flavour::Tok, Flavour::Cid, Flavour::Cid, Flavour::ZTok].get(rng.below(5)).unwrap(),
+        Profile::C05 => *[Flavour::Tok, Flavour::Tok, Flavour::Fat, Flavour::ZTok, Flavour::Mov].get(rng.below(5)).unwrap(),
+        Profile::C11 | Profile::C12 => *[Flavour::Tok, Flavour::Tok, Flavour::Tok, Flavour::Fat, Flavour::ZTok, Flavour::Cid, Flavour::Mov].get(rng.below(7)).unwrap(),
+        _ => *[Flavour::Tok, Flavour::Fat, Flavour::Cid, Flavour::Cid, Flavour::ZTok, Flavour::Mov].get(rng.below(6)).unwrap(),
     };
     let alloc_mode = rng.below(3) as u8;
     // now and then a much larger shape with a short history (thorough tier)
-    let big = rng.chance(1, if thorough { 48 } else { 96 });
+    let big = rng.chance(1, if thorough { 24 } else { 32 });
     let max_dim = if big { rng.range(9, 32) } else if thorough { rng.range(1, 8) } else { rng.range(1, 6) };
     let n_steps = if big { rng.range(3, 12) } else if thorough { rng.range(4, 80) } else { rng.range(3, 40) };
     let mut w = [0u32; N_FAM];
@@ -196,9 +196,19 @@ pub fn gen_script(rng: &mut Rng, line_len: usize, leak: bool) -> Script {
             acts.push(if rng.chance(1, 2) { 2 } else { 3 });
         }
         let front = if ff == 0 { false } else if bb == 0 { true } else { rng.chance(1, 2) };
+        // now and then the consumer jumps (nth / nth_back / skip): the guard must drop what it skips
+        let jump = if rng.chance(1, 6) { rng.below(3) } else { usize::MAX };
         if front {
-            acts.push(0);
-            ff -= 1;
+            if jump != usize::MAX {
+                acts.push(4 + 2 * jump as u8);
+                ff = ff.saturating_sub(jump + 1);
+            } else {
+                acts.push(0);
+                ff -= 1;
+            }
+        } else if jump != usize::MAX {
+            acts.push(5 + 2 * jump as u8);
+            bb = bb.saturating_sub(jump + 1);
         } else {
             acts.push(1);
             bb -= 1;
@@ -322,13 +332,24 @@ fn gen_mut_op(rng: &mut Rng, fam: usize, m: &Model, cfg: &ArrayCfg) -> MutOp {
 
 /// Which kinds of caller code can an operation run? (used to arm a fault that can fire)
 fn fault_kinds_for(op: &Op, flavour: Flavour) -> Vec<usize> {
-    let owning = flavour != Flavour::Cid;
+    // which caller code an element type brings along: Clone (all but the Copy flavour), Drop
+    // (only the flavours with drop glue)
+    let clones = flavour != Flavour::Cid;
+    let drops = matches!(flavour, Flavour::Tok | Flavour::Fat | Flavour::ZTok);
     let mut v = Vec::new();
     match op {
         Op::New { .. } => v.push(K_DEFAULT),
         Op::Init { .. } | Op::CloneSelf | Op::FromView { .. } => {
-            if owning {
+            if clones {
                 v.push(K_CLONE)
+            }
+        }
+        Op::CloneFrom { .. } => {
+            if clones {
+                v.push(K_CLONE)
+            }
+            if drops {
+                v.push(K_DROP)
             }
         }
         Op::InsertRow { .. } | Op::PushRow { .. } => {
@@ -338,19 +359,22 @@ fn fault_kinds_for(op: &Op, flavour: Flavour) -> Vec<usize> {
             v.extend([K_INTO_ITER, K_LEN, K_NEXT_BACK, K_ITER_DROP]);
         }
         Op::RemoveRow { .. } | Op::PopRow { .. } | Op::RemoveCol { .. } | Op::PopCol { .. } | Op::Clear | Op::IntoIter { .. } | Op::DropArr => {
-            if owning {
+            if drops {
                 v.push(K_DROP)
             }
         }
         Op::DataMutSet { .. } | Op::AsMutSet { .. } => {
-            if owning {
+            if drops {
                 v.push(K_DROP)
             }
         }
         Op::Mut(m) | Op::ViewMut { op: m, .. } => match m {
             MutOp::Fill | MutOp::CloneFromSlice { .. } | MutOp::CloneFromToodee { .. } => {
-                if owning {
-                    v.extend([K_CLONE, K_DROP])
+                if clones {
+                    v.push(K_CLONE)
+                }
+                if drops {
+                    v.push(K_DROP)
                 }
             }
             MutOp::Sort { variant, .. } => {
@@ -361,7 +385,7 @@ fn fault_kinds_for(op: &Op, flavour: Flavour) -> Vec<usize> {
                 }
             }
             MutOp::SetCoord { .. } | MutOp::SetRowCol { .. } | MutOp::RowsMutSet { .. } | MutOp::ColMutSet { .. } | MutOp::CellsMutSet { .. } | MutOp::UncheckedSet { .. } | MutOp::UncheckedRowSet { .. } => {
-                if owning {
+                if drops {
                     v.push(K_DROP)
                 }
             }
@@ -424,7 +448,21 @@ pub fn gen_step(rng: &mut Rng, m: &Model, cfg: &ArrayCfg, cap_is_exact: bool) ->
         F_CONSTRUCT => match rng.below(10) {
             0 => Op::DefaultNew,
             1 => Op::WithCapacity { n: rng.below(65) },
-            2 => Op::CloneSelf,
+            2 => {
+                if rng.chance(1, 2) {
+                    Op::CloneSelf
+                } else {
+                    // clone_from: same element count, fewer, or more (inside or beyond the capacity)
+                    let (c, r) = match rng.below(4) {
+                        0 => m.size(),
+                        // the same number of cells in another shape
+                        1 => (m.num_rows(), m.cols),
+                        _ => gen_dims(rng, cfg),
+                    };
+                    let (c, r) = if Model::dims_ok(c, r).map_or(true, |n| n > 64) { m.size() } else { (c, r) };
+                    Op::CloneFrom { c, r, extra_cap: *[0usize, 0, 3].get(rng.below(3)).unwrap() }
+                }
+            }
             3 => Op::FromView { win: gen_win(rng, m, cfg), mutable: rng.chance(1, 2) },
             4 | 5 => {
                 let (c, r) = gen_dims(rng, cfg);
